@@ -19,6 +19,7 @@ import (
 	"time"
 
 	"verifsim/simrt"
+	"verifsim/simsync"
 )
 
 // Violation of a property found in one run.
@@ -120,6 +121,7 @@ func (r *R) Sim(cfg simrt.Config, report bool, root func()) simrt.Result {
 				escaped = p
 			}
 		}()
+		simsync.ResetPools() // pooled objects of the runs before must not reach this one
 		synctest.Test(t2, func(t *testing.T) {
 			res = simrt.Run(r.Tape, cfg, root)
 		})
